@@ -134,6 +134,8 @@ def h_base_unchanged(op: int, base_kind: str, changes_kind: str) -> None:
                 demo.pack(env.clock.time(), lambda p: [], gc=False)
             except Exception as ex:
                 note('pack', type(ex).__name__)
+            B.q_load(demo, h.m, T.oid(1))
+            B.q_load(demo, h.m, T.oid(4))
         elif k == 5:
             for _ in range(3):
                 n = demo.new_oid()
@@ -154,12 +156,63 @@ def h_base_unchanged(op: int, base_kind: str, changes_kind: str) -> None:
     reached()
 
 
+def h_demo_pack(gcsel: int, base_kind: str) -> None:
+    """Pack through a demo storage whose changes refer to objects that live only in the base: whatever the
+    gc setting, afterwards every object still reads as before and the base is unchanged."""
+    with untraced():
+        import transaction
+        import ZODB
+        from persistent.mapping import PersistentMapping as PM
+        env = T.Env()
+        base = _layer(env, base_kind, '/db/Base.fs')
+        dbb = ZODB.DB(base)
+        tmb = transaction.TransactionManager()
+        cb = dbb.open(tmb)
+        cb.root()['M'] = PM()
+        cb.root()['M']['N'] = PM(v=1)
+        tmb.commit()
+        cb.close()
+        base_before = [B.mtxn_view(t) for t in GR.model_from_storage(base).txns]
+        demo = ZODB.DemoStorage.DemoStorage(base=base)
+        db = ZODB.DB(demo)
+        tm = transaction.TransactionManager()
+        c = db.open(tm)
+        r = c.root()
+        r['k'] = 1
+        r['M']['N']['B'] = PM(payload='x')        # a changes record that refers to base-only objects and to a new one
+        tm.commit()
+        r['k'] = 2
+        tm.commit()
+    g = choose(gcsel, 3)
+    with untraced():
+        kw = [{}, dict(gc=True), dict(gc=False)][g]
+        note('gc', ['default', 'True', 'False'][g])
+        from ZODB.serialize import referencesf
+        try:
+            demo.pack(env.clock.time(), referencesf, **kw)
+            note('pack', 'ok')
+        except Exception as ex:
+            note('pack', type(ex).__name__)
+        c.cacheMinimize()
+        tm.begin()
+        try:
+            got = (r.get('k'), dict(r['M']['N']).get('v'), r['M']['N']['B']['payload'])
+        except Exception as ex:
+            fail('objects no longer readable after a pack through the demo storage', type(ex).__name__, str(ex)[:100])
+        check(got == (2, 1, 'x'), 'state changed by a pack through the demo storage', got)
+        check([B.mtxn_view(t) for t in GR.model_from_storage(base).txns] == base_before, 'base changed by a pack through the demo storage')
+    reached()
+
+
 _KINDS = [('mapping', 'mapping'), ('file', 'mapping'), ('mapping', 'file'), ('file', 'file')]
 
 
 def _sh(kinds, depths):
     return [dict(base_kind=b, changes_kind=c, depth=d) for b, c in kinds for d in depths]
 
+
+from zverif.harness.c20 import h_demo as _demo_new_oid  # noqa: E402
+from zverif.harness.c03 import h_store_serial as _store_serial  # noqa: E402  (conflict detection across both layers)
 
 HARNESSES = [
     Harness('load_before', h_load_before,
@@ -178,6 +231,23 @@ HARNESSES = [
             oracle='RevStore over both layers', pure_python=True, code=['DemoStorage.load', 'getTid', 'lastTransaction'],
             quick=dict(timeout=100, shards=_sh(_KINDS[:2], [1, 2])),
             thorough=dict(timeout=300, shards=_sh(_KINDS, [1, 2]))),
+    Harness('store_serial', _store_serial,
+            decides='conflict detection treats both layers as one database: a store quoting a serial other than the current revision - '
+                    'whichever layer holds it - is refused or merged, never accepted blindly (same harness as C03 store_serial)',
+            symbolic='serial (8 free bytes), object selector', bounds='history RC split over base and changes', oracle='RevStore + resolver arithmetic',
+            pure_python=True, code=['DemoStorage.store'],
+            quick=dict(timeout=100, shards=shards(storage=['demo', 'demo_file'])), thorough=dict(timeout=300, shards=shards(storage=['demo', 'demo_file']))),
+    Harness('new_oid', _demo_new_oid,
+            decides='new ids never collide with ids in either layer or issued before, whatever the random draws (same harness as C20 demo)',
+            symbolic='3 random draws (ints in a window around all ids present)', bounds='<= 2 allocations; base {70,71}, changes {75}',
+            oracle='set difference', pure_python=True, code=['DemoStorage.new_oid'],
+            quick=dict(timeout=150, shards=shards(nalloc=[2], commit_first=[False])), thorough=dict(timeout=600, shards=shards(nalloc=[2, 3], commit_first=[True, False]))),
+    Harness('demo_pack', h_demo_pack,
+            decides='a pack through a demo storage (default gc, gc on, gc off) whose changes refer to base-only objects leaves every '
+                    'object readable with its current state and the base unchanged',
+            symbolic='gc setting selector', bounds='object graph of 4 objects over 2 layers', oracle='state before the pack',
+            code=['DemoStorage.pack', 'MappingStorage.pack (GC sweep)'],
+            quick=dict(timeout=60, shards=shards(base_kind=['mapping', 'file'])), thorough=dict(timeout=60, shards=shards(base_kind=['mapping', 'file']))),
     Harness('base_unchanged', h_base_unchanged,
             decides='commits, aborts, conflicts, undo, pack, id allocation and push/pop through the demo storage leave the base identical',
             symbolic='operation selector (0..6)', bounds='one operation per run', oracle='base iteration + bytes before/after',
